@@ -95,8 +95,39 @@ MUTANTS = [
      "                # mark with +1\n                d += 2",
      "                # mark with +1\n                d += 1",
      ['C12', 'C05']),
-    ('spike-distance-identity-compiled-branch', 'pyspike/spike_distance.py',
-     None, None, ['C07']),
+    # ---- sub-clauses no seeded change happened to touch
+    ('disc-smoothing-fraction', 'pyspike/DiscreteFunc.py',
+     "                        y += self.y[j] * (expected_mp - mp_l)/self.mp[j]",
+     "                        y += self.y[j] * (expected_mp - mp_l - 1)/self.mp[j]",
+     ['C11']),
+    ('disc-avrg-empty-convention', 'pyspike/DiscreteFunc.py',
+     "            if mp > 0:\n                return val/mp\n            else:\n                return 1.0",
+     "            if mp >= 0:\n                return val/mp\n            else:\n                return 1.0",
+     ['C11']),
+    ('save-precision-capped', 'pyspike/spikes.py',
+     '    format_str = "{0:.%de}" % precision',
+     '    format_str = "{0:.%de}" % min(precision, 15)',
+     ['C19']),
+    ('scalar-edge-truncated', 'pyspike/SpikeTrain.py',
+     "            self.t_start = 0.0\n            self.t_end = float(edges)",
+     "            self.t_start = 0.0\n            self.t_end = float(int(edges))",
+     ['C19']),
+    ('poisson-edges-from-spikes', 'pyspike/spikes.py',
+     "    spikes = spikes[spikes < T_end]\n    return SpikeTrain(spikes, interval)",
+     "    spikes = spikes[spikes < T_end]\n    return SpikeTrain(spikes, [T_start, spikes[-1]] if len(spikes) else interval)",
+     ['C20']),
+    ('pwc-avrg-multi-interval-length', 'pyspike/PieceWiseConstFunc.py',
+     "                a += self.integral(ival)\n                int_length += ival[1] - ival[0]",
+     "                a += self.integral(ival)\n                int_length = ival[1] - ival[0]",
+     ['C05']),
+    ('dir-self-tie-sign', 'pyspike/cython/directionality_python_backend.py',
+     "            # advance in both spike trains\n            j += 1\n            i += 1\n            d1[i] = 0\n            d2[j] = 0",
+     "            # advance in both spike trains\n            j += 1\n            i += 1\n            d1[i] = 1\n            d2[j] = 0",
+     ['C07', 'C12']),
+    ('reconcile-not-idempotent', 'pyspike/spikes.py',
+     "    return [SpikeTrain(s.spikes, [tStart, tEnd], is_sorted=True) for s in spike_trains]",
+     "    return [SpikeTrain(s.spikes, [tStart, tEnd + (1e-3 if len(spike_trains) > 2 else 0.0)], is_sorted=True) for s in spike_trains]",
+     ['C13']),
 ]
 
 
